@@ -309,6 +309,10 @@ ISAR_FRAGMENTS = [
     '<xi:include xmlns:xi="http://www.w3.org/2001/XInclude" href=""/>',
     '<struct name="S"><member name="a" type="u8"/><member name="a" type="u8"/></struct>',
     '<struct name="S"/><struct name="S"><member name="a" type="S"/></struct>',
+    '<struct name="A&#10;B" comment="hello"><member name="a" type="u8"/></struct>',
+    '<struct name="SC" comment="line one&#10;line two"><member name="a&#10;b" type="u8" comment="x"/></struct>',
+    '<enum name="E&#9;X" comment="c"><enum-member name="a b" value="1" comment="d&#10;e"/></enum>',
+    '<typedef name="T T" type="u8" comment="hello"/><constant name="C&#10;" value="1" comment="hello"/>',
 ]
 
 
@@ -344,7 +348,7 @@ def isar_inputs(draw):
     elif kind == 'text_mutation':
         xml = '<x>%s</x>' % '\n'.join(body)
         i = draw(st.integers(0, max(len(xml) - 1, 0)))
-        xml = xml[:i] + draw(st.sampled_from(['<', '>', '"', '&', 'x', '0', ' ', '/', '@', '*', '(', ''])) + xml[i + 1:]
+        xml = xml[:i] + draw(st.sampled_from(['<', '>', '"', '&', 'x', '0', ' ', '/', '@', '*', '(', '', '&#10;', '&#9;', '&amp;', '&lt;', '\n'])) + xml[i + 1:]
     else:
         xml = '<x>%s</x>' % '\n'.join(body)
     return kind, {'m.xml': xml}, 'm.xml'
